@@ -109,6 +109,7 @@ def run(ctx):
     import numqi
     quick = ctx.tier == 'quick'
     rng = random.Random(ctx.seed)
+    rng_np = np.random.default_rng(ctx.seed + 17)
     ctx.rule = ('every tuple of the mixed-radix domain for n=1 (6), n=2 (720)%s walked in lexicographic order through from_int_tuple/to_int_tuple/'
                 'inverse and validated by TLC; every symplectic matrix of the TLC closure model mapped back to an index; every ordered pair of non-zero '
                 'vectors for n<=%d through find_transvection; random tuples n<=10. distinct by tuple / matrix / vector pair'
@@ -152,6 +153,21 @@ def run(ctx):
         validate_enum(ctx, 3, 64)
     # ---- find_transvection on all ordered pairs of non-zero vectors, rand_SpF2, get_number
     ev = []
+    # transvection(x, *h) on arrays of every batch shape (the docstring admits ndim >= 1): one 'tv' event per call, rows flattened
+    for n in (1, 2, 3):
+        for shape in [(2 * n,), (3, 2 * n), (2 * n, 2 * n), (2, 3, 2 * n), (4, 2 * n, 2 * n), (2, 1, 2, 2 * n)]:
+            for nh in (1, 2):
+                x = rng_np.integers(0, 2, size=shape, dtype=np.uint8)
+                hs = [rng_np.integers(0, 2, size=2 * n, dtype=np.uint8) for _ in range(nh)]
+                ctx.case(('tv', n, shape, nh))
+                try:
+                    y = np.asarray(spf2.transvection(x.copy(), *hs))
+                    if y.shape != x.shape:
+                        ctx.violation('C09:transvection:shape', 'transvection changes the shape of a batch: %s -> %s' % (x.shape, y.shape), dict(n=n, shape=list(shape)))
+                    else:
+                        ev.append(dict(op='tv', rows=[li(r_) for r_ in x.reshape(-1, 2 * n)], hs=[li(h) for h in hs], res=[li(r_) for r_ in y.reshape(-1, 2 * n)], shape=list(shape)))
+                except Exception as ex:
+                    ctx.violation('C09:transvection:exception', 'transvection on an array of shape %s: %s: %s' % (shape, type(ex).__name__, str(ex)[:120]), dict(n=n, shape=list(shape)))
     for n in ([1, 2, 3] if quick else [1, 2, 3, 4]):
         vecs = [np.array(v, dtype=np.uint8) for v in itertools.product([0, 1], repeat=2 * n) if any(v)]
         for v0 in vecs:
@@ -198,7 +214,7 @@ def run(ctx):
         ctx.case((e['op'], repr(e.get('v0')), repr(e.get('v1')), repr(e.get('t')), e.get('n') if e['op'] == 'numbers' else None))
     for gi, info in rej:
         e = ev[gi]
-        key = {'ft': 'C09:find_transvection:maps-v0-to-v1', 'rand': 'C09:rand_SpF2:valid', 'index': 'C09:rand_SpF2:return-kinds', 'numbers': 'C09:get_number:order-base-coset'}[e['op']]
+        key = {'tv': 'C09:transvection:row-wise', 'ft': 'C09:find_transvection:maps-v0-to-v1', 'rand': 'C09:rand_SpF2:valid', 'index': 'C09:rand_SpF2:return-kinds', 'numbers': 'C09:get_number:order-base-coset'}[e['op']]
         ctx.violation(key, 'event rejected by Trace_Sp: ' + e['op'], e)
     validate_repo_tests(ctx)
     ctx.sample(dict(kind='find_transvection', event=[e for e in ev if e['op'] == 'ft'][37]))
